@@ -358,6 +358,10 @@ class C03Case:
         clo_may = g.closure_of_files(goal_files, self.declared)
         clo_must = g.closure_of_files(goal_files, self.must_edges)
         must = self.pending_must & clo_must
+        # a symlink / hard link made by copy_file() *is* its source: an
+        # in-place edit of the source needs no new link (and both tools see
+        # equal mtimes); re-making it is allowed, not required
+        must = {k for k in must if g.steps[k]['tool'] != 'ln'}
         may = (self.pending_may & clo_may) | self.always_closure(clo_may)
         must |= self.always & clo_must
         ran = self.note_ran(r)
